@@ -446,30 +446,43 @@ def state_to_graph(state):
 
 def _position_finder(x_matrix):
     """
-    A helper function to obtain the position of the Hadamard gates needed to turn a stabilizer state into a graph state
+    A helper function to obtain the position of the qubits (columns) that need a Hadamard gate to make the X part of the
+    stabilizer invertible: the columns that hold no pivot (leading one of a row) of the row reduced X matrix.
 
-    :param x_matrix: binary matrix for representing Pauli X part of the symplectic binary
-            representation of the stabilizer generators
+    :param x_matrix: the row reduced (echelon form) binary matrix representing the Pauli X part of the stabilizer
     :type x_matrix: numpy.ndarray
-    :return: list of qubit positions to apply the Hadamard on
-    :rtype: list
+    :return: the list of column indices without a pivot
+    :rtype: list[int]
     """
-    pivot = [0, 0]
     n = x_matrix.shape[0]
-    pos_list = []
-    while pivot[0] < n and pivot[1] < n:
-        try:
-            if x_matrix[pivot[0] + 1, pivot[1]] == 1:
-                pivot = [pivot[0] + 1, pivot[1]]
-            if x_matrix[pivot[0] + 1, pivot[1] + 1] == 1:
-                pivot = [pivot[0] + 1, pivot[1] + 1]
-            else:
-                pivot = [pivot[0], pivot[1] + 1]
-                pos_list.append(pivot[1])
-        except:
-            break
+    pivot_columns = set()
+    for row in range(n):
+        nonzero = np.nonzero(x_matrix[row])[0]
+        if len(nonzero) > 0:
+            pivot_columns.add(int(nonzero[0]))
+    return [column for column in range(x_matrix.shape[1]) if column not in pivot_columns]
 
-    return pos_list
+
+def _gf2_inverse(matrix):
+    """
+    Inverse of a square binary matrix over GF(2) by Gauss-Jordan elimination (exact, unlike a floating point inverse)
+
+    :param matrix: a square binary matrix
+    :type matrix: numpy.ndarray
+    :raises AssertionError: if the matrix is singular over GF(2)
+    :return: the inverse matrix over GF(2)
+    :rtype: numpy.ndarray
+    """
+    n = matrix.shape[0]
+    augmented = np.hstack([np.array(matrix).astype(int) % 2, np.eye(n, dtype=int)])
+    for column in range(n):
+        pivot_rows = [row for row in range(column, n) if augmented[row, column] == 1]
+        assert len(pivot_rows) > 0, "Stabilizer generators are not independent."
+        augmented[[column, pivot_rows[0]]] = augmented[[pivot_rows[0], column]]
+        for row in range(n):
+            if row != column and augmented[row, column] == 1:
+                augmented[row] = (augmented[row] + augmented[column]) % 2
+    return augmented[:, n:]
 
 
 def _graph_finder(x_matrix, z_matrix, get_ops_data=False):
@@ -502,10 +515,7 @@ def _graph_finder(x_matrix, z_matrix, get_ops_data=False):
     h_positions = _position_finder(x_mat)
 
     x_mat, z_mat = sla.hadamard_transform(x_mat, z_mat, h_positions)
-    assert (np.linalg.det(x_mat)).astype(
-        int
-    ) % 2 != 0, "Stabilizer generators are not independent."
-    x_inv = (np.linalg.det(x_mat.T) * np.linalg.inv(x_mat.T) % 2).astype(int)
+    x_inv = _gf2_inverse(x_mat.T)
     final_z = (z_mat.T @ x_inv) % 2
 
     # get position of non-zero diagonal elements in the final Z matrix to find qubits to apply clifford operations on
@@ -551,7 +561,7 @@ def _phase_correction(stabilizer_tab1, stabilizer_tab2, gate_list):
     new_tab = canonical_form(run_circuit(tab1.copy(), gate_list))
     phase_diff = (tab2.phase - new_tab.phase) % 2
     x_mat = np.copy(new_tab.x_matrix)
-    x_inv = ((np.linalg.det(x_mat) * np.linalg.inv(x_mat)) % 2).astype(int)
+    x_inv = _gf2_inverse(x_mat)
     z_ops = (x_inv @ phase_diff) % 2
     phase_correction = [("Z", index) for index, z in enumerate(z_ops) if z]
     return phase_correction
